@@ -47,6 +47,9 @@ def objects7():
     }
 
 
+EXTRA = {'int': lambda: 3, 'str': lambda: 'x', 'None': lambda: None, 'zero': lambda: 0, 'zero-float': lambda: 0.0, 'empty-str': lambda: '',
+         'empty-tuple': lambda: (), 'empty-list': lambda: [], 'empty-dict': lambda: {}, 'False': lambda: False, 'tuple3': lambda: (1.0, 2.0, 3.0)}
+
 SUPPORTED = {
     'intersection': {(a, b) for a in X.ALL7 for b in X.ALL7},
     'distance': {('Point', 'Point'), ('Point', 'Line'), ('Line', 'Point'), ('Line', 'Line'), ('Point', 'Plane'), ('Plane', 'Point'),
@@ -75,6 +78,7 @@ def eval_scene(fam, s):
         finally:
             TINY = old
             set_eps()
+            set_sig_figures()
             lib.assert_default_tolerance()
     if k == 'zero-length':
         ctor, form, p, axis = s[1], s[2], s[3], s[4]
@@ -93,6 +97,17 @@ def eval_scene(fam, s):
             v = [TINY if axis in (ax, 3) else 0.0 for ax in range(3)]
             th = lambda: C(P, Vector(*v))
         return must_raise('zero-length-' + ctor, form, s, th)
+    if k == 'polygon-tiny':
+        # the listed vertices plus a copy of vertex s[3] displaced by TINY (eps/1000 of the configured eps) along axis s[4]
+        label, pts, dup, axis = s[1], [list(fp(p)) for p in s[2]], s[3], s[4]
+        q = list(pts[dup])
+        for ax in (range(3) if axis == 3 else (axis,)):
+            q[ax] += TINY
+        if label == 'collinear':
+            pts[dup] = q
+        else:
+            pts.append(q)
+        return must_raise('polygon-' + label + '-by-tolerance', 'n%d' % len(pts), s, lambda: ConvexPolygon(tuple(Point(*p) for p in pts)))
     if k == 'polygon':
         label, pts = s[1], s[2]
         return must_raise('polygon-' + label, 'n%d' % len(pts), s, lambda: ConvexPolygon(tuple(Point(*fp(p)) for p in pts)))
@@ -141,7 +156,7 @@ def eval_scene(fam, s):
     if k == 'operands':
         op, ta, tb, form = s[1], s[2], s[3], s[4]
         mk = objects7()
-        extra = {'int': lambda: 3, 'str': lambda: 'x', 'None': lambda: None}
+        extra = EXTRA
         a = lib.construct(ta, mk.get(ta) or extra[ta])
         b = lib.construct(tb, mk.get(tb) or extra[tb])
         fn = {'intersection': intersection, 'distance': distance, 'angle': angle, 'parallel': parallel, 'orthogonal': orthogonal}[op]
@@ -150,7 +165,7 @@ def eval_scene(fam, s):
         return must_raise('unsupported-' + op, '%s.%s(%s)' % (ta, op, tb), s, lambda: getattr(a, op)(b))
     if k == 'volume':
         mk = objects7()
-        extra = {'int': lambda: 3, 'str': lambda: 'x', 'None': lambda: None}
+        extra = EXTRA
         a = lib.construct(s[1], mk.get(s[1]) or extra[s[1]])
         return must_raise('unsupported-volume', s[1], s, lambda: volume(a))
     raise core.HarnessError('bad scene %r' % (s,))
@@ -230,6 +245,18 @@ def families(tier):
             for setter in ('set_eps', 'set_sig_figures'):
                 for k_ in ((4, 7, 12) if tier == 'quick' else range(3, 13)):
                     sct += [('at-tolerance', setter, k_, x) for x in inner]
+    # fewer than three tolerance-distinct vertices at the configured tolerance (three distinct vertices that are collinear
+    # only up to the tolerance are NOT asserted: the library accepts them at every tolerance, the plane through them has a
+    # unit normal, and the statement's tolerance example is about coincident points)
+    for p in A.B0[:3]:
+        a_ = poses[-1].point(p)
+        b_ = poses[-1].point(X.add(p, (1, 0, 1)))
+        c_ = poses[-1].point(X.add(p, (2, 0, 2)))
+        for setter in ('set_eps', 'set_sig_figures'):
+            for k_ in ((4, 7, 12) if tier == 'quick' else range(3, 13)):
+                for ax in (0, 1, 2, 3):
+                    sct.append(('at-tolerance', setter, k_, ('polygon-tiny', 'two-distinct', (a_, b_), 1, ax)))
+                    sct.append(('at-tolerance', setter, k_, ('polygon-tiny', 'two-distinct', (b_, a_, a_), 0, ax)))
     fams.append(ListFamily('zero-length-at-configured-tolerance', sct))
     # polygons
     sc = []
@@ -353,7 +380,8 @@ def families(tier):
     # unsupported operand types
     sc = []
     types8 = list(X.ALL7) + ['Vector']
-    foreign = ['int', 'str', 'None']
+    # foreign operands, including falsy ones (0, 0.0, '', (), [], {}, False): a "not a" / "a and b" style guard must not swallow them
+    foreign = ['int', 'str', 'None', 'zero', 'zero-float', 'empty-str', 'empty-tuple', 'empty-list', 'empty-dict', 'False', 'tuple3']
     for op in ('intersection', 'distance', 'angle', 'parallel', 'orthogonal'):
         for ta in types8 + foreign:
             for tb in types8 + foreign:
@@ -364,7 +392,7 @@ def families(tier):
                 sc.append(('operands', op, ta, tb, 'fn'))
                 if ta in X.ALL7 and ta != 'Point':
                     sc.append(('operands', op, ta, tb, 'method'))
-    for t in X.ALL7 + ('Vector', 'int', 'str', 'None'):
+    for t in X.ALL7 + ('Vector',) + tuple(foreign):
         if t != 'ConvexPolyhedron':
             sc.append(('volume', t))
     fams.append(ListFamily('unsupported-operands', sc, chunk=60))
